@@ -134,6 +134,10 @@ def run(tier, seed):
         for st, sr in [("食", "た"), ("勉強", "べんきょう"), ("x", "えっくす"), ("亜", "a")]:
             ng.append({"op": "dic_new_guessed", "reading": sr + e, "word": st + e})
             ngmeta.append(("good", st, sr, e))
+    # the shortest well-formed pairs: the word is nothing but a recognised ending (stem and stem reading empty)
+    for e in ["ない", "い", "だ", "かない", "しない", "xない", "あない"]:
+        ng.append({"op": "dic_new_guessed", "reading": e, "word": e})
+        ngmeta.append(("good", "", "", e))
     for _ in range(60 if tier == "quick" else 3000):
         w = "".join(rnd.choice("食亜aあいだなしべ") for _ in range(rnd.randint(0, 5)))
         r = "".join(rnd.choice("たあいだなしべaé") for _ in range(rnd.randint(0, 5)))
